@@ -13,6 +13,12 @@ type Control struct {
 	Rule string // rule that must fire
 }
 
+// CleanVariant as a Control's Rule marks a behaviour-preserving variant (a
+// refactoring under which the property still holds): the property's rules
+// must report nothing new on it. These guard against false alarms the same
+// way the breaking controls guard against misses.
+const CleanVariant = "!clean"
+
 // Controls lists the control mutants per property.
 var Controls = []Control{
 	// C01
@@ -110,6 +116,27 @@ var Controls = []Control{
 	{"C19", "hints emitted before descending", "hintdetail/hintdetail.go", `func getAllHintsInternal\(err error, hints \[\]string, seen map\[string\]struct\{\}\) \[\]string \{\n\tif c := errbase\.UnwrapOnce\(err\); c != nil \{\n\t\thints = getAllHintsInternal\(c, hints, seen\)\n\t\}\n(.*?)\treturn hints\n\}`, "func getAllHintsInternal(err error, hints []string, seen map[string]struct{}) []string {\n$1\tif c := errbase.UnwrapOnce(err); c != nil {\n\t\thints = getAllHintsInternal(c, hints, seen)\n\t}\n\treturn hints\n}", "R-ORDER"},
 	// C20
 	{"C20", "a part of the error is encoded", "grpc/middleware/server.go", `enc := errors\.EncodeError\(ctx, err\)`, `enc := errors.EncodeError(ctx, errors.UnwrapAll(err))`, "R-GRPC-FLOW"},
+	// round 3
+	{"C08", "type-name keyed memo of the full type name", "errbase/encode.go", `func getFullTypeName\(err error\) string \{\n\tt := reflect\.TypeOf\(err\)\n\tpkgPath := getPkgPath\(t\)\n\treturn makeTypeKey\(pkgPath, t\.String\(\)\)\n\}`, "var fullTypeNamesMemo = map[string]string{}\n\nfunc getFullTypeName(err error) string {\n\tt := reflect.TypeOf(err)\n\tname := t.String()\n\tif v, ok := fullTypeNamesMemo[name]; ok {\n\t\treturn v\n\t}\n\tfull := makeTypeKey(getPkgPath(t), name)\n\tfullTypeNamesMemo[name] = full\n\treturn full\n}", "R-MEMO"},
+	{"C08", "memo keyed by the reflect.Type itself", "errbase/encode.go", `func getFullTypeName\(err error\) string \{\n\tt := reflect\.TypeOf\(err\)\n\tpkgPath := getPkgPath\(t\)\n\treturn makeTypeKey\(pkgPath, t\.String\(\)\)\n\}`, "var fullTypeNamesMemo = map[reflect.Type]string{}\n\nfunc getFullTypeName(err error) string {\n\tt := reflect.TypeOf(err)\n\tif v, ok := fullTypeNamesMemo[t]; ok {\n\t\treturn v\n\t}\n\tfull := makeTypeKey(getPkgPath(t), t.String())\n\tfullTypeNamesMemo[t] = full\n\treturn full\n}", CleanVariant},
+	{"C08", "Mark skipped when already equivalent", "markers/markers.go", `\trefMark := getMark\(reference\)\n\treturn &withMark`, "\tif Is(err, reference) {\n\t\treturn err\n\t}\n\trefMark := getMark(reference)\n\treturn &withMark", "R-ALWAYS-WRAPS"},
+	{"C08", "IsAny takes the mark of the root at every depth", "markers/markers.go", `\t\terrMark := getMark\(c\)\n\t\tfor _, refMark := range refMarks`, "\t\terrMark := getMark(err)\n\t\tfor _, refMark := range refMarks", "R-WALK-CURRENT"},
+	{"C07", "CombineErrors drops an equivalent secondary error", "secondary/secondary.go", `\treturn WithSecondaryError\(err, otherErr\)\n`, "\tif err.Error() == otherErr.Error() {\n\t\treturn err\n\t}\n\treturn WithSecondaryError(err, otherErr)\n", "R-SECONDARY-ATTACH"},
+	{"C07", "CombineErrors spelled with a switch", "secondary/secondary.go", `\tif err == nil \{\n\t\treturn otherErr\n\t\}\n\treturn WithSecondaryError\(err, otherErr\)\n`, "\tswitch {\n\tcase err == nil:\n\t\treturn otherErr\n\tdefault:\n\t\treturn WithSecondaryError(err, otherErr)\n\t}\n", CleanVariant},
+	{"C05", "payload kept after a failed unmarshal", "errbase/decode.go", `warningFn\(ctx, "error while unmarshalling error: %\+v", err\)\n\t\t\} else \{\n\t\t\tpayload = d\.Message\n\t\t\}`, "warningFn(ctx, \"error while unmarshalling error: %+v\", err)\n\t\t}\n\t\tpayload = d.Message", "R-UNMARSHAL-OK"},
+	{"C05", "unmarshal success tested positively", "errbase/decode.go", `\t\tif err != nil \{\n\t\t\t// It's OK if we can't decode\. We'll use\n\t\t\t// the opaque type below\.\n\t\t\twarningFn\(ctx, "error while unmarshalling error: %\+v", err\)\n\t\t\} else \{\n\t\t\tpayload = d\.Message\n\t\t\}`, "\t\tif err == nil {\n\t\t\tpayload = d.Message\n\t\t} else {\n\t\t\twarningFn(ctx, \"error while unmarshalling error: %+v\", err)\n\t\t}", CleanVariant},
+	{"C04", "link error paths swapped in the wire message", "errbase/adapters.go", `msg := p\.Op \+ " " \+ p\.Old \+ " " \+ p\.New`, `msg := p.Op + " " + p.New + " " + p.Old`, "R-WIRE-MSG"},
+	{"C04", "path error message built with Sprintf-free concat in two steps", "errbase/adapters.go", `msg := p\.Op \+ " " \+ p\.Path\n`, "msg := p.Op + \" \"\n\tmsg += p.Path\n", CleanVariant},
+	{"C12", "one variable aliased by every encoded branch", "errbase/encode.go", `\t\tfor i, ee := range causes \{\n\t\t\tee := EncodeError\(ctx, ee\)\n\t\t\tcs\[i\] = &ee\n\t\t\}`, "\t\tvar enc EncodedError\n\t\tfor i, ee := range causes {\n\t\t\tenc = EncodeError(ctx, ee)\n\t\t\tcs[i] = &enc\n\t\t}", "R-LOOP-ALIAS"},
+	{"C13", "one variable aliased by every encoded branch", "errbase/encode.go", `\t\tfor i, ee := range causes \{\n\t\t\tee := EncodeError\(ctx, ee\)\n\t\t\tcs\[i\] = &ee\n\t\t\}`, "\t\tvar enc EncodedError\n\t\tfor i, ee := range causes {\n\t\t\tenc = EncodeError(ctx, ee)\n\t\t\tcs[i] = &enc\n\t\t}", "R-LOOP-ALIAS"},
+	{"C13", "branches encoded through a fresh pointer per iteration", "errbase/encode.go", `\t\tfor i, ee := range causes \{\n\t\t\tee := EncodeError\(ctx, ee\)\n\t\t\tcs\[i\] = &ee\n\t\t\}`, "\t\tfor i := range causes {\n\t\t\tenc := new(EncodedError)\n\t\t\t*enc = EncodeError(ctx, causes[i])\n\t\t\tcs[i] = enc\n\t\t}", CleanVariant},
+	{"C12", "standard library identity for the safe sentinels", "errutil/format_error_special.go", `(import \(\n\t"context"\n)(.*?)markers\.Is\(err, ref\)`, "${1}\tstderrors \"errors\"\n${2}stderrors.Is(err, ref)", "R-STD-IDENTITY"},
+	{"C19", "tags walked with the standard library's Unwrap", "contexttags/contexttags.go", `(import \(\n\t"context"\n)(.*?)err = errbase\.UnwrapOnce\(err\)`, "${1}\tstderrors \"errors\"\n${2}err = stderrors.Unwrap(err)", "R-STD-IDENTITY"},
+	{"C10", "wire prefix used as a format by the pkg/errors decoder", "errbase/adapters.go", `return pkgErr\.WithMessage\(cause, msgPrefix\)`, `return pkgErr.WithMessagef(cause, msgPrefix)`, "R-FORMAT-ARG"},
+	{"C01", "wire prefix used as a format by the pkg/errors decoder", "errbase/adapters.go", `return pkgErr\.WithMessage\(cause, msgPrefix\)`, `return pkgErr.WithMessagef(cause, msgPrefix)`, "R-FORMAT-ARG"},
+	{"C06", "legacy barrier decoder trusts the plain message as redactable", "barriers/barriers.go", `func decodeBarrierPrev\(ctx context\.Context, msg string, _ \[\]string, payload proto\.Message\) error \{\n.*?\n\}\n`, "func decodeBarrierPrev(ctx context.Context, msg string, details []string, payload proto.Message) error {\n\treturn decodeBarrier(ctx, msg, details, payload)\n}\n", "R-TAINT/redactable"},
+	{"C03", "own text declared safe on an Is match alone", "errutil/format_error_special.go", `if markers\.Is\(err, ref\) && err\.Error\(\) == ref\.Error\(\) \{\n\t\t\t\tp\.Print\(redact\.Safe\(ref\.Error\(\)\)\)`, "if markers.Is(err, ref) {\n\t\t\t\tp.Print(redact.Safe(err.Error()))", "R-SPECIAL-LEAF"},
+	{"C03", "own text declared safe after comparing it with the sentinel's", "errutil/format_error_special.go", `p\.Print\(redact\.Safe\(ref\.Error\(\)\)\)`, `p.Print(redact.Safe(err.Error()))`, CleanVariant},
 	{"C20", "code invented for uncoded errors", "extgrpc/ext_grpc.go", `\treturn codes\.Unknown\n\}\n\n// it's an error\.`, "\treturn codes.Code(uint32(len(err.Error())) % 17)\n}\n\n// it's an error.", "R-CODE-GETTER"},
 	{"C11", "HTTP default replaced", "exthttp/ext_http.go", `\treturn defaultCode\n`, "\treturn 500\n", "R-CODE-GETTER"},
 	{"C20", "decoded error ignored", "grpc/middleware/client.go", `if reconstituted != nil \{\n\t\terr = reconstituted\n\t\}`, "if reconstituted != nil {\n\t\t_ = reconstituted\n\t}", "R-GRPC-FLOW"},
